@@ -269,7 +269,7 @@ fn configs(thorough: bool) -> Vec<Cfg> {
 
 pub fn run(thorough: bool) -> i32 {
     let mut rep = Report::new("C09", "model_checking", if thorough { "thorough" } else { "quick" });
-    let bound = if thorough { 2 } else { 1 };
+    let bound = if thorough { 3 } else { 2 };
     let cfgs = configs(thorough);
     let mut execs = 0u64;
     let mut points = 0u64;
@@ -349,6 +349,6 @@ pub fn run(thorough: bool) -> i32 {
     rep.guard("receiver_drops_injected", g.3);
     rep.guard("timeout_cleanups_injected", g.4);
     rep.sample(json!({"cfg": cfgs[0], "choices": [0, 0, 1], "meaning": "answers at the successive choice points; 0 = default environment answer"}));
-    rep.assume("deviations are bounded (1 quick, 2 thorough); packet histories are the 7 delivery orders of each recorded session, not all orders (those are C03's)");
+    rep.assume("deviations are bounded (2 quick, 3 thorough); packet histories are the 7 delivery orders of each recorded session, not all orders (those are C03's)");
     rep.finish()
 }
